@@ -410,3 +410,49 @@ def adapter_in_helper(tree):
 
 
 VARIANTS.append(A("S32-request-config-adapter-in-a-helper", "silent", ["C13", "C02", "C03", "C05", "C12", "C01", "C04"], "SimpleJSONRPCServer", adapter_in_helper))
+
+
+# ---- local aliases of final fields (normaliser: alias propagation) ---------------------------------------
+def alias_fields_in_pool(tree):
+    """ThreadPool.enqueue / clear / join: `tasks = self._queue`, `lock = self.__lock` used instead of the attributes"""
+    class R(ast.NodeTransformer):
+        def __init__(self, mapping):
+            self.mapping = mapping
+
+        def visit_Attribute(self, node):
+            self.generic_visit(node)
+            if isinstance(node.value, ast.Name) and node.value.id == "self" and node.attr in self.mapping and isinstance(node.ctx, ast.Load):
+                return ast.copy_location(ast.Name(id=self.mapping[node.attr], ctx=ast.Load()), node)
+            return node
+    for name in ("enqueue", "clear", "join"):
+        fn = _find_func(tree, "ThreadPool", name)
+        mapping = {"_queue": "tasks", "__lock": "lock"}
+        doc = fn.body[:1] if isinstance(fn.body[0], ast.Expr) and isinstance(fn.body[0].value, ast.Constant) else []
+        rest = fn.body[len(doc):]
+        rest = [R(mapping).visit(st) for st in rest]
+        pre = [ast.parse("%s = self.%s" % (v, k)).body[0] for k, v in mapping.items()]
+        fn.body = doc + pre + rest
+    ast.fix_missing_locations(tree)
+    return tree
+
+
+def alias_request_pool(tree):
+    fn = _find_func(tree, "PooledJSONRPCServer", "server_close")
+    fn2 = _find_func(tree, "PooledJSONRPCServer", "process_request")
+
+    class R(ast.NodeTransformer):
+        def visit_Attribute(self, node):
+            self.generic_visit(node)
+            if isinstance(node.value, ast.Name) and node.value.id == "self" and node.attr == "__request_pool" and isinstance(node.ctx, ast.Load):
+                return ast.copy_location(ast.Name(id="pool", ctx=ast.Load()), node)
+            return node
+    for f in (fn, fn2):
+        doc = f.body[:1] if isinstance(f.body[0], ast.Expr) and isinstance(f.body[0].value, ast.Constant) else []
+        rest = [R().visit(st) for st in f.body[len(doc):]]
+        f.body = doc + [ast.parse("pool = self.__request_pool").body[0]] + rest
+    ast.fix_missing_locations(tree)
+    return tree
+
+
+VARIANTS.append(A("S33-local-aliases-of-queue-and-lock", "silent", POOL, "threadpool", alias_fields_in_pool))
+VARIANTS.append(A("S34-local-alias-of-the-request-pool", "silent", ["C12", "C01"], "SimpleJSONRPCServer", alias_request_pool))
